@@ -718,7 +718,9 @@ func runC12faulty(c *Ctx) {
 		case 1:
 			o.Short, o.Err = -1, fmt.Errorf("injected write error #%d", i)
 		case 2:
-			o.Short, o.Err = 1+f.Draw(4), io.ErrShortWrite
+			// part of the bytes taken, then an interruption: an error that calls
+			// itself temporary (EINTR, EAGAIN) or the generic short-write error
+			o.Short, o.Err = 1+f.Draw(4), []error{io.ErrShortWrite, syscall.EINTR, syscall.EAGAIN}[f.Draw(3)]
 		case 3:
 			o.Short, o.Err = 1, fmt.Errorf("injected torn write #%d", i)
 		}
